@@ -792,3 +792,140 @@ package rtcp
 //@   ensures[C14] below: err == nil ==> specRembValue(specRembMantissa(buf), buf[17]>>2) <= p.Bitrate
 //@   ensures[C14] normal: err == nil ==> buf[17]>>2 == 0 || specRembMantissa(buf) >= 1<<17
 //@   ensures[C14] tight: err == nil ==> p.Bitrate < specRembRaw(specRembMantissa(buf)+1, buf[17]>>2) || (specRembMantissa(buf) == 0x3FFFF && buf[17]>>2 == 63)
+
+// ===================================================================================================
+// util.go (bit helpers)
+// ===================================================================================================
+
+//@ func setNBitsOfUint16(src uint16, size uint16, startIndex uint16, val uint16) (result uint16, err error)
+//@   safety[C09]
+//@   ensures[C16] ok: (err == nil) <==> startIndex+size <= 16
+//@   ensures[C03,C16] value: err == nil && size <= 16 && startIndex <= 16 ==> result == src | (val&(uint16(1)<<size-1))<<(16-size-startIndex)
+
+//@ func appendNBitsToUint32(src uint32, n uint32, val uint32) (result uint32)
+//@   safety[C09]
+//@   ensures[C03,C16] value: result == src<<n | val&(0xFFFFFFFF>>(32-n))
+
+//@ func getNBitsFromByte(b byte, begin uint16, n uint16) (result uint16)
+//@   safety[C01]
+//@   allocates[C01] 0
+//@   ensures[C04,C16] value: int(begin)+int(n) <= 8 ==> result == uint16(b)>>(8-begin-n)&(uint16(1)<<n-1)
+
+//@ func get24BitsFromBytes(b []byte) (result uint32)
+//@   safety[C01]
+//@   allocates[C01] 0
+//@   requires len(b) >= 3
+//@   ensures[C04,C16] value: result == be24(b, 0)
+
+//@ func localMin(x uint16, y uint16) (result uint16)
+//@   safety[C01]
+//@   allocates[C01] 0
+//@   ensures result == min(x, y)
+
+// ===================================================================================================
+// transport_layer_cc.go (chunk and delta codecs)
+// ===================================================================================================
+
+//@ func (r RunLengthChunk) Marshal() (result []byte, err error)
+//@   safety[C09]
+//@   fresh
+//@   ensures[C08] ok: err == nil
+//@   ensures[C03,C13,C16] word: len(result) == 2 && be16(result, 0) == specRunLengthWord(r.PacketStatusSymbol, r.RunLength)
+
+//@ func (r *RunLengthChunk) Unmarshal(rawPacket []byte) (err error)
+//@   safety[C01]
+//@   modifies *r
+//@   nocap
+//@   allocates[C01] 0
+//@   ensures[C01,C04,C16] ok: (err == nil) <==> len(rawPacket) == 2
+//@   ensures[C04,C13,C16] fields: err == nil ==> r.Type == 0 && r.PacketStatusSymbol == be16(rawPacket, 0)>>13&3 && r.RunLength == be16(rawPacket, 0)&0x1FFF
+
+//@ func (r StatusVectorChunk) Marshal() (result []byte, err error)
+//@   safety[C09]
+//@   fresh
+//@   unroll 1 15
+//@   ensures[C03,C13,C16] one: err == nil && r.SymbolSize == 0 && len(r.SymbolList) == 14 ==> len(result) == 2 && be16(result, 0)>>14 == 2
+//@   ensures[C03,C13,C16] one_symbols: forall i :: err == nil && r.SymbolSize == 0 && len(r.SymbolList) == 14 && 0 <= i && i < 14 ==> specVectorSymbol1(be16(result, 0), i) == r.SymbolList[i]&1
+//@   ensures[C03,C13,C16] two: err == nil && r.SymbolSize == 1 && len(r.SymbolList) == 7 ==> len(result) == 2 && be16(result, 0)>>14 == 3
+//@   ensures[C03,C13,C16] two_symbols: forall i :: err == nil && r.SymbolSize == 1 && len(r.SymbolList) == 7 && 0 <= i && i < 7 ==> specVectorSymbol2(be16(result, 0), i) == r.SymbolList[i]&3
+//@   ensures[C08] fits1: r.SymbolSize == 0 && len(r.SymbolList) <= 14 ==> err == nil
+//@   ensures[C08] fits2: r.SymbolSize == 1 && len(r.SymbolList) <= 7 ==> err == nil
+//@   ensures[C08] toomany1: r.SymbolSize == 0 && len(r.SymbolList) > 14 ==> err != nil
+//@   ensures[C08] toomany2: r.SymbolSize == 1 && len(r.SymbolList) > 7 ==> err != nil
+
+//@ func (r *StatusVectorChunk) Unmarshal(rawPacket []byte) (err error)
+//@   safety[C01]
+//@   modifies *r
+//@   nocap
+//@   allocates[C01] 28
+//@   ensures[C01,C04,C16] ok: (err == nil) <==> len(rawPacket) == 2
+//@   ensures[C04,C13,C16] size: err == nil ==> r.Type == 1 && (r.SymbolSize == be16(rawPacket, 0)>>14&1) && (r.SymbolSize == 0 ==> len(r.SymbolList) == 14) && (r.SymbolSize == 1 ==> len(r.SymbolList) == 7)
+//@   ensures[C04,C13,C16] one_symbols: forall i :: err == nil && r.SymbolSize == 0 && 0 <= i && i < 14 ==> r.SymbolList[i] == specVectorSymbol1(be16(rawPacket, 0), i)
+//@   ensures[C04,C13,C16] two_symbols: forall i :: err == nil && r.SymbolSize == 1 && 0 <= i && i < 7 ==> r.SymbolList[i] == specVectorSymbol2(be16(rawPacket, 0), i)
+
+//@ func (r RecvDelta) Marshal() (result []byte, err error)
+//@   safety[C09]
+//@   fresh
+//@   ensures[C08,C16] ok: (err == nil) <==> ((r.Type == 1 && 0 <= r.Delta/250 && r.Delta/250 <= 255) || (r.Type == 2 && -32768 <= r.Delta/250 && r.Delta/250 <= 32767))
+//@   ensures[C08] nobytes: err != nil ==> len(result) == 0
+//@   ensures[C03,C13,C16] small: err == nil && r.Type == 1 ==> len(result) == 1 && int64(result[0]) == r.Delta/250
+//@   ensures[C03,C13,C16] large: err == nil && r.Type == 2 ==> len(result) == 2 && int64(int16(be16(result, 0))) == r.Delta/250
+
+//@ func (r *RecvDelta) Unmarshal(rawPacket []byte) (err error)
+//@   safety[C01]
+//@   modifies *r
+//@   nocap
+//@   allocates[C01] 0
+//@   ensures[C01,C04,C16] ok: (err == nil) <==> (len(rawPacket) == 1 || len(rawPacket) == 2)
+//@   ensures[C04,C13,C16] small: err == nil && len(rawPacket) == 1 ==> r.Type == 1 && r.Delta == 250*int64(rawPacket[0])
+//@   ensures[C04,C13,C16] large: err == nil && len(rawPacket) == 2 ==> r.Type == 2 && r.Delta == 250*int64(int16(be16(rawPacket, 0)))
+
+// ===================================================================================================
+// transport_layer_cc.go (packet)
+// ===================================================================================================
+
+//@ func specDeltasLen(ds []*RecvDelta, n int) (result int)
+//@   rec
+
+//@ func (t *TransportLayerCC) Unmarshal(rawPacket []byte) (err error)
+//@   safety[C01]
+//@   modifies *t
+//@   nocap
+//@   allocates[C01] 4194304 + 256*len(rawPacket)
+//@   ensures[C07] type: err == nil ==> rawPacket[0]>>6 == 2 && rawPacket[1] == 205 && rawPacket[0]&31 == 15
+//@   ensures[C04,C13] fixed: err == nil ==> t.SenderSSRC == be32(rawPacket, 4) && t.MediaSSRC == be32(rawPacket, 8) && t.BaseSequenceNumber == be16(rawPacket, 12) && t.PacketStatusCount == be16(rawPacket, 14) && t.ReferenceTime == be24(rawPacket, 16) && t.FbPktCount == rawPacket[19]
+//@   ensures[C04,C09] header: err == nil ==> t.Header == Header{Padding: rawPacket[0]>>5&1 == 1, Count: 15, Type: TypeTransportSpecificFeedback, Length: be16(rawPacket, 2)}
+//@   ensures[C13] framed: err == nil ==> 4*(int(be16(rawPacket, 2))+1) <= len(rawPacket) && be16(rawPacket, 2) < 16383 && 20 + 2*len(t.PacketChunks) <= 4*(int(be16(rawPacket, 2))+1)
+//@   ensures[C13] deltatypes: forall k :: err == nil && 0 <= k && k < len(t.RecvDeltas) ==> t.RecvDeltas[k] != nil && (t.RecvDeltas[k].Type == 1 || t.RecvDeltas[k].Type == 2)
+//@   ensures[C13] count: err == nil ==> len(t.RecvDeltas) <= int(t.PacketStatusCount)
+//@   loop 1
+//@     invariant int(packetStatusPos) == 20 + 2*len(t.PacketChunks) && packetStatusPos <= totalLength && totalLength >= 20 && int(totalLength) <= len(rawPacket) && processedPacketNum <= t.PacketStatusCount
+//@     invariant unchanged(t.Header) && unchanged(t.SenderSSRC) && unchanged(t.MediaSSRC) && unchanged(t.BaseSequenceNumber) && unchanged(t.PacketStatusCount) && unchanged(t.ReferenceTime) && unchanged(t.FbPktCount)
+//@     invariant[C01,C13] forall k :: 0 <= k && k < len(t.RecvDeltas) ==> t.RecvDeltas[k] != nil && (t.RecvDeltas[k].Type == 1 || t.RecvDeltas[k].Type == 2)
+//@     invariant[C01,C13] len(t.RecvDeltas) <= int(processedPacketNum)
+//@     invariant[C01] allocated() <= 24*len(t.RecvDeltas) + 128*len(t.PacketChunks)
+//@     decreases int(totalLength) - int(packetStatusPos)
+//@   loop 2
+//@     invariant j <= packetNumberToProcess && len(t.RecvDeltas) == before(len(t.RecvDeltas)) + int(j) && unchanged(t.PacketChunks) && unchanged(t.PacketStatusCount) && unchanged(t.Header) && unchanged(t.SenderSSRC) && unchanged(t.MediaSSRC) && unchanged(t.BaseSequenceNumber) && unchanged(t.ReferenceTime) && unchanged(t.FbPktCount) && unchanged(*packetStatus)
+//@     invariant[C01,C13] forall k :: 0 <= k && k < len(t.RecvDeltas) ==> t.RecvDeltas[k] != nil && (t.RecvDeltas[k].Type == 1 || t.RecvDeltas[k].Type == 2)
+//@     invariant[C01] allocated() <= before(allocated()) + 24*int(j)
+//@     decreases int(packetNumberToProcess) - int(j)
+//@   loop 3
+//@     invariant 0 <= j && j <= len(packetStatus.SymbolList) && len(t.RecvDeltas) <= before(len(t.RecvDeltas)) + j && len(t.RecvDeltas) >= before(len(t.RecvDeltas)) && unchanged(t.PacketChunks) && unchanged(t.PacketStatusCount) && unchanged(t.Header) && unchanged(t.SenderSSRC) && unchanged(t.MediaSSRC) && unchanged(t.BaseSequenceNumber) && unchanged(t.ReferenceTime) && unchanged(t.FbPktCount) && unchanged(packetStatus.SymbolSize) && unchanged(len(packetStatus.SymbolList))
+//@     invariant[C01,C13] forall k :: 0 <= k && k < len(t.RecvDeltas) ==> t.RecvDeltas[k] != nil && (t.RecvDeltas[k].Type == 1 || t.RecvDeltas[k].Type == 2)
+//@     invariant[C01] allocated() <= before(allocated()) + 24*j
+//@     decreases len(packetStatus.SymbolList) - j
+//@   loop 4
+//@     invariant 0 <= j && j <= len(packetStatus.SymbolList) && len(t.RecvDeltas) <= before(len(t.RecvDeltas)) + j && len(t.RecvDeltas) >= before(len(t.RecvDeltas)) && unchanged(t.PacketChunks) && unchanged(t.PacketStatusCount) && unchanged(t.Header) && unchanged(t.SenderSSRC) && unchanged(t.MediaSSRC) && unchanged(t.BaseSequenceNumber) && unchanged(t.ReferenceTime) && unchanged(t.FbPktCount) && unchanged(packetStatus.SymbolSize) && unchanged(len(packetStatus.SymbolList))
+//@     invariant[C01,C13] forall k :: 0 <= k && k < len(t.RecvDeltas) ==> t.RecvDeltas[k] != nil && (t.RecvDeltas[k].Type == 1 || t.RecvDeltas[k].Type == 2)
+//@     invariant[C01] allocated() <= before(allocated()) + 24*j
+//@     decreases len(packetStatus.SymbolList) - j
+//@   loop 5
+//@     invariant 0 <= iter() && iter() <= len(t.RecvDeltas) && recvDeltasPos <= totalLength && unchanged(len(t.RecvDeltas)) && unchanged(t.PacketChunks) && unchanged(t.PacketStatusCount) && unchanged(t.Header) && unchanged(t.SenderSSRC) && unchanged(t.MediaSSRC) && unchanged(t.BaseSequenceNumber) && unchanged(t.ReferenceTime) && unchanged(t.FbPktCount)
+//@     invariant[C01,C13] forall k :: 0 <= k && k < len(t.RecvDeltas) ==> t.RecvDeltas[k] != nil && (t.RecvDeltas[k].Type == 1 || t.RecvDeltas[k].Type == 2)
+//@     decreases len(t.RecvDeltas) - iter()
+
+//@ func (t TransportLayerCC) DestinationSSRC() (result []uint32)
+//@   safety[C09,C10]
+//@   fresh
+//@   ensures[C10] one: len(result) == 1 && result[0] == t.MediaSSRC
